@@ -90,7 +90,9 @@ func (c *conn) PrepareContext(ctx context.Context, q string) (driver.Stmt, error
 	return &stmt{Stmt: s, q: q}, nil
 }
 
-func (c *conn) Prepare(q string) (driver.Stmt, error) { return c.PrepareContext(context.Background(), q) }
+func (c *conn) Prepare(q string) (driver.Stmt, error) {
+	return c.PrepareContext(context.Background(), q)
+}
 
 func (c *conn) BeginTx(ctx context.Context, o driver.TxOptions) (driver.Tx, error) {
 	if b, ok := c.Conn.(driver.ConnBeginTx); ok {
